@@ -9,7 +9,7 @@
     src/offset/local/mod.rs                Local::offset_from_utc_datetime / offset_from_local_datetime
 
   Everything outside chrono is a parameter (`World`): the file system, the TZ-rule reader (C16's
-  subject), the name of the system zone, the mtime of /etc/localtime, `DefaultHasher`.  A zone is
+  subject), the name of the system zone, the mtime of /etc/localtime.  A zone is
   represented by where it came from plus an opaque content number; what a conversion then reads out
   of the zone (C05's subject) is the parameter `Lookups`.
   The process is a state machine with atomic steps and an abstract clock (nanoseconds).
@@ -53,8 +53,6 @@ structure World where
   sysName : Option Bytes
   /-- `fs::symlink_metadata("/etc/localtime")?.modified()`, `none` when either fails -/
   ltMtime : Option Nat
-  /-- `DefaultHasher` over the bytes of the TZ value -/
-  hash : Bytes → Nat
 
 /-- the process environment's `TZ` entry -/
 inductive EnvVal where
@@ -146,15 +144,19 @@ def current_zone (W : World) (var : Option Bytes) : Zone :=
     | some z => z
     | none => .utc
 
+/-- `enum Source`: what the cache was built from.  `Environment { tz: String }` holds the TEXT of
+`TZ` (since the repair of finding F33; before it: a `DefaultHasher` hash of the text, which let a
+change between two colliding values go unnoticed — that rule is kept, outside the model, in
+`Chrono.Proofs.LocalCache.BeforeF33`). -/
 inductive Source where
   | localTime (mtime : Nat)
-  | environment (hash : Nat)
+  | environment (tz : Bytes)
   deriving DecidableEq, Repr
 
 /-- `Source::new`; `now` is `SystemTime::now()` (used when the mtime is unavailable) -/
 def Source.new (W : World) (now : Nat) (env_tz : Option Bytes) : Source :=
   match env_tz with
-  | some tz => .environment (W.hash tz)
+  | some tz => .environment tz
   | none =>
     match W.ltMtime with
     | some m => .localTime m
@@ -177,7 +179,7 @@ def out_of_date (old new : Source) : Bool :=
   | .environment _, .localTime _ => true
   | .localTime _, .environment _ => true
   | .localTime old_mtime, .localTime mtime => old_mtime != mtime
-  | .environment old_hash, .environment hash => old_hash != hash
+  | .environment old_tz, .environment tz => old_tz != tz
 
 def NANOS : Nat := 1000000000
 
